@@ -286,8 +286,10 @@ def block_records(repo):
                 for b in list(blocks) + ['after']:
                     if a in unvisited or b in unvisited:
                         continue
+                    a_out = (a, 'out')
+                    b_in = (b, 'in') if b != 'after' else 'after'
                     out.append({'cls': cls, 'variant': s.variant, 'a': gen(a), 'b': gen(b),
-                                'ref_may': b in rmay.get(a, ()), 'supp_may': b in smay.get(a, ()),
-                                'ref_dom': a in rdom.get(b, ()), 'supp_dom': a in sdom.get(b, ()),
+                                'ref_may': b in rmay.get(a, ()), 'supp_may': b_in in smay.get(a_out, ()),
+                                'ref_dom': a in rdom.get(b, ()), 'supp_dom': a_out in sdom.get(b_in, ()),
                                 'line': method_line(repo, cls)})
     return out
